@@ -284,4 +284,11 @@ theorem binary_search_is_lower_bound (lt : K → K → Bool) (hlt : ∀ a b, lt 
 theorem int_fast_path_is_order (a b : Int) : fastLtInt a b = decide (a < b) ∧ fastEqInt a b = decide (a = b) :=
   ⟨fastLtInt_eq a b, fastEqInt_eq a b⟩
 
+/-- the exact-str fast path answers by the sign `PyUnicode_Compare` returned (a genuine −1 is "less", not a failure) and
+    defers to rich comparison only when an error is set -/
+theorem str_fast_path_is_sign (result : Int) (fallback : Bool) :
+    fastLtStr result false fallback = decide (result < 0) ∧ fastEqStr result false fallback = decide (result = 0) ∧
+    fastLtStr (-1) true fallback = fallback ∧ fastEqStr (-1) true fallback = fallback :=
+  fastLtStr_spec result fallback
+
 end BPT.Props.C12
